@@ -93,7 +93,7 @@ pub fn lookup(nr: i64) -> Sc {
         92 => ("chown", Visible, Path(0)),
         93 => ("fchown", Visible, Fd(0)),
         94 => ("lchown", Visible, Path(0)),
-        95 => ("umask", Local, None),
+        95 => ("umask", Visible, None), // process-wide state: a scheduling point, so that other threads can run inside a umask(0)..umask(old) pair
         96 => ("gettimeofday", Clock, None),
         97 => ("getrlimit", Local, None),
         99 => ("sysinfo", Local, None),
